@@ -80,7 +80,8 @@ def setPending (s : St) (k : Int) : St := { s with pending := k }
 
 /-! ### insertChildren -/
 
-/-- The `for ah > 0` loop of `insertChildren`; `fuel` bounds the iterations (`top` decreases).
+/-- The `for ah > 0` loop of `insertChildren`; `fuel` bounds the iterations (`top` decreases by one
+    per iteration and the loop stops at 0, so the old `top` is enough fuel).
     Returns (top, ah, children). -/
 def insertLoop (hs : List Nat) : Nat → Nat → Int → List Child → Nat × Int × List Child
   | 0, top, ah, acc => (top, ah, acc)
@@ -103,7 +104,7 @@ def restack : Int → List Child → List Child
 /-- `insertChildren(ctx, &s, ah)`: new `top`, new `offset`, the children (the surface had none). -/
 def insertChildren (hs : List Nat) (top : Nat) (ah : Int) : Nat × Int × List Child :=
   let top0 := usub top 1
-  let (top1, ah1, cs) := insertLoop hs (top0 + 1) top0 ah []
+  let (top1, ah1, cs) := insertLoop hs top top0 ah []
   if top1 = 0 ∧ ah1 > 0 then (top1, 0, restack 0 cs) else (top1, ah1, cs)
 
 /-! ### Draw -/
@@ -137,36 +138,85 @@ def cursorChild (cs : List Child) (cursor top : Nat) : Except Panic (Option Chil
     | none => .error (.childIndex idx cs.length)
   else .ok none
 
-/-- `Draw(ctx)` with `ctx.Max = (W, H)`.  `guard` = the cursor-gutter block tests
-    `d.cursor >= d.scroll.top &&` before indexing (regenerated fact `Gen.ListFacts.dynCursorGuard`). -/
-def draw (guard : Bool) (cfg : Cfg) (hs : List Nat) (s : St) (W H : Nat) : Except Panic (St × List Child) := do
-  if H = 65535 ∨ W = 65535 then throw .unbounded
+/-- The start of `Draw`: the accumulated height from offset and pending scroll; an upward scroll at
+    the first widget is cancelled. -/
+def prologue (s : St) : Int × St :=
   let ah0 : Int := - (s.offset + s.pending)
   let s := { s with pending := 0 }
-  let (ah1, s) := if ah0 > 0 ∧ s.top = 0 then ((0 : Int), { s with offset := 0 }) else (ah0, s)
-  let i := s.top
-  let (ah2, s, cs0) ←
-    if ah1 > 0 then
-      let (top', off', cs) := insertChildren hs s.top ah1
-      match cs.getLast? with
-      | none => throw .lastOfEmpty
-      | some last => pure (last.row + (last.height : Int), { s with top := top', offset := off' }, cs)
-    else pure (ah1, s, [])
-  let cs1 := drawDown cfg.gap s.wantsCursor s.cursor H (hs.drop i) i ah2 cs0
-  -- cursor gutter: replaces the cursored child by a surface of the same origin row and height
+  if ah0 > 0 ∧ s.top = 0 then (0, { s with offset := 0 }) else (ah0, s)
+
+/-- `if ah > 0 { insertChildren(…); last := s.Children[len(s.Children)-1]; ah = last.Origin.Row + height }`. -/
+def scrollUp (hs : List Nat) (s : St) (ah1 : Int) : Except Panic (Int × St × List Child) :=
+  if ah1 > 0 then
+    let r := insertChildren hs s.top ah1
+    match r.2.2.getLast? with
+    | none => .error .lastOfEmpty
+    | some last => .ok (last.row + (last.height : Int), { s with top := r.1, offset := r.2.1 }, r.2.2)
+  else .ok (ah1, s, [])
+
+/-- The cursor gutter (`if d.DrawCursor { … }`): replaces the cursored child by a surface with the
+    same origin row and height, so only the index expression matters.  `guard` = the block tests
+    `d.cursor >= d.scroll.top &&` first (regenerated fact `Gen.ListFacts.dynCursorGuard`). -/
+def gutter (guard : Bool) (cfg : Cfg) (cs : List Child) (s : St) : Except Panic Unit :=
   if cfg.drawCursor ∧ (guard = false ∨ s.cursor ≥ s.top) then
-    let _ ← cursorChild cs1 s.cursor s.top
-  -- bring the cursor into view
-  let (cs2, s) ←
-    if s.wantsCursor then
-      match ← cursorChild cs1 s.cursor s.top with
-      | some ch =>
-        let bRow := ch.row + (ch.height : Int)
-        let cs := if bRow > H then cs1.map fun c => { c with row := c.row + ((H : Int) - bRow) } else cs1
-        pure (cs, { s with wantsCursor := false })
-      | none => pure (cs1, s)
-    else pure (cs1, s)
-  let (top', off') := retop cs2 0 (s.top, s.offset)
-  pure ({ s with top := top', offset := off' }, cs2)
+    match cursorChild cs s.cursor s.top with
+    | .error e => .error e
+    | .ok _ => .ok ()
+  else .ok ()
+
+/-- `if d.scroll.wantsCursor { … }`: bring the bottom of the cursored child to the bottom row. -/
+def reveal (cs : List Child) (s : St) (H : Nat) : Except Panic (List Child × St) :=
+  if s.wantsCursor then
+    match cursorChild cs s.cursor s.top with
+    | .error e => .error e
+    | .ok (some ch) =>
+      let bRow := ch.row + (ch.height : Int)
+      let cs' := if bRow > H then cs.map fun c => { c with row := c.row + ((H : Int) - bRow) } else cs
+      .ok (cs', { s with wantsCursor := false })
+    | .ok none => .ok (cs, s)
+  else .ok (cs, s)
+
+/-- `Draw(ctx)` with `ctx.Max = (W, H)`. -/
+def draw (guard : Bool) (cfg : Cfg) (hs : List Nat) (s : St) (W H : Nat) : Except Panic (St × List Child) :=
+  if H = 65535 ∨ W = 65535 then .error .unbounded else
+  let p := prologue s
+  match scrollUp hs p.2 p.1 with
+  | .error e => .error e
+  | .ok (ah2, s2, cs0) =>
+    let cs1 := drawDown cfg.gap s2.wantsCursor s2.cursor H (hs.drop p.2.top) p.2.top ah2 cs0
+    match gutter guard cfg cs1 s2 with
+    | .error e => .error e
+    | .ok _ =>
+      match reveal cs1 s2 H with
+      | .error e => .error e
+      | .ok (cs2, s3) =>
+        let t := retop cs2 0 (s3.top, s3.offset)
+        .ok ({ s3 with top := t.1, offset := t.2 }, cs2)
+
+/-! ### histories -/
+
+inductive Op where
+  | setCursor (c : Nat)
+  | next | prev | wheelDown | wheelUp
+  | pending (k : Int)
+  | draw (W H : Nat)
+deriving DecidableEq, Repr
+
+def step (guard : Bool) (cfg : Cfg) (hs : List Nat) (s : St) : Op → Except Panic St
+  | .setCursor c => .ok (setCursor s c)
+  | .next => .ok (nextItem hs s).1
+  | .prev => .ok (prevItem hs s).1
+  | .wheelDown => .ok (wheelDown s).1
+  | .wheelUp => .ok (wheelUp s).1
+  | .pending k => .ok (setPending s k)
+  | .draw W H => match draw guard cfg hs s W H with
+    | .ok (s', _) => .ok s'
+    | .error e => .error e
+
+def run (guard : Bool) (cfg : Cfg) (hs : List Nat) (s : St) : List Op → Except Panic St
+  | [] => .ok s
+  | op :: ops => match step guard cfg hs s op with
+    | .ok s' => run guard cfg hs s' ops
+    | .error e => .error e
 
 end VaxisModel.Model.DynList
